@@ -60,6 +60,11 @@ def dy(fr):
     return f"{fr.numerator}:{-e}"
 
 
+def parse_dy(t):
+    if ":" not in t: return Fraction(int(t))
+    m, e = t.split(":"); return Fraction(int(m)) * Fraction(2) ** int(e)
+
+
 def fbits(fr):
     return Fraction(fr).denominator.bit_length() - 1
 
@@ -100,10 +105,21 @@ class KGen:
     def __init__(self, r):
         self.r = r
         self.nscaled = 0      # number of ScaledKernel objects generated so far
+        self.unconstrained = False   # leaves may use the unconstrained (log) parameter encodings (oracle-only cases)
         self.scaled_bias = 0  # percent chance that a composite position holds a ScaledKernel (history cases)
         self.no_norm = 0      # > 0 below a ModelKernel: the mapped point may be the zero vector (0/0 in a normalised linear kernel)
 
     def leaf(self, dim, allow_exp=True):
+        t, i = self._leaf(dim, allow_exp)
+        if self.unconstrained and t[0] in ("poly", "gauss") and self.r.chance(1, 2):
+            # unconstrained encoding: the parameter is the log of offset / gamma (offset > 0 then)
+            if t[0] == "poly" and Fraction(0) == parse_dy(t[2]): t = [t[0], t[1], "1"]
+            t = [t[0] + "u"] + t[1:]
+            i = dict(i, exact=False, kinds=i["kinds"] | {t[0]}, ps=["logw"])
+        i["psa"] = i["ps"]
+        return t, i
+
+    def _leaf(self, dim, allow_exp=True):
         r = self.r
         x = r.below(100)
         dotmax = dim * self.COORD * self.COORD
@@ -118,7 +134,7 @@ class KGen:
             n = r.choice([0, 1, 1, 2, 2, 3, 4])
             return ["mono", str(n)], dict(exact=True, M=Fraction(dotmax) ** n, f=0, kinds={"mono"}, depth=0, ps=[])
         if not allow_exp:
-            return self.leaf(dim, allow_exp)
+            return self._leaf(dim, allow_exp)
         if x < 82:
             g = r.choice(GAMMAS)
             return ["gauss", dy(g)], dict(exact=False, M=Fraction(1), f=0, kinds={"gauss"}, depth=0, ps=["gamma"])
@@ -133,7 +149,7 @@ class KGen:
         self.nscaled += 1                    # pre-order numbering of the ScaledKernel objects (op setfactor)
         t, i = self.gen(dim, depth - 1)
         return ["scaled", dy(s)] + t, dict(exact=i["exact"], M=i["M"] * max(FACTORS), f=i["f"] + 2, kinds=i["kinds"] | {"scaled"},
-                                          depth=i["depth"] + 1, ps=i["ps"])
+                                          depth=i["depth"] + 1, ps=i["ps"], psa=i["psa"])
 
     def mk_prod(self, dim, depth):
         r = self.r
@@ -145,7 +161,7 @@ class KGen:
             toks += t; M *= i["M"]; f += i["f"]
         return toks, dict(exact=all(i["exact"] for _, i in subs), M=M, f=f,
                           kinds=set().union(*[i["kinds"] for _, i in subs]) | {"prod"}, depth=1 + max(i["depth"] for _, i in subs),
-                          ps=[q for _, i in subs for q in i["ps"]])
+                          ps=[q for _, i in subs for q in i["ps"]], psa=[q for _, i in subs for q in i["psa"]])
 
     def gen(self, dim, depth):
         r = self.r
@@ -158,7 +174,7 @@ class KGen:
             t, i = self.gen(dim, depth - 1)
             if "model" in i["kinds"]:      # A x + b may be the zero vector: k(x,x) = 0, the normalised kernel is 0/0 there
                 return t, i
-            return ["norm"] + t, dict(exact=False, M=Fraction(1), f=0, kinds=i["kinds"] | {"norm"}, depth=i["depth"] + 1, ps=i["ps"])
+            return ["norm"] + t, dict(exact=False, M=Fraction(1), f=0, kinds=i["kinds"] | {"norm"}, depth=i["depth"] + 1, ps=i["ps"], psa=i["psa"])
         if x < 34:
             return self.mk_scaled(dim, depth)
         if x < 56:
@@ -175,7 +191,8 @@ class KGen:
                 for t, _ in subs: toks += t
                 k = n.bit_length() - 1
                 return toks, dict(exact=ex, M=max(i["M"] for _, i in subs), f=max(i["f"] for _, i in subs) + k,
-                                  kinds=kinds | {"wsump"}, depth=dep, ps=["logw"] * (n - 1))
+                                  kinds=kinds | {"wsump"}, depth=dep, ps=["logw"] * (n - 1),
+                                  psa=["logw"] * (n - 1) + [q for _, i in subs for q in i["psa"]])
             ws = [Fraction(1)] + [r.choice([Fraction(1), Fraction(2), Fraction(1, 2), Fraction(3), Fraction(1), Fraction(5)]) for _ in range(n - 1)]
             s = sum(ws)
             ex = is_pow2(s) and all(i["exact"] for _, i in subs)
@@ -184,7 +201,8 @@ class KGen:
             k = fbits(1 / s) if is_pow2(s) else 0
             M = sum(w * i["M"] for w, (_, i) in zip(ws, subs)) / s
             f = max(i["f"] + fbits(w) for w, (_, i) in zip(ws, subs)) + max(k, 0)
-            return toks, dict(exact=ex, M=M, f=f, kinds=kinds | {"wsum"}, depth=dep, ps=["logw"] * (n - 1))
+            return toks, dict(exact=ex, M=M, f=f, kinds=kinds | {"wsum"}, depth=dep, ps=["logw"] * (n - 1),
+                              psa=["logw"] * (n - 1) + [q for _, i in subs for q in i["psa"]])
         if x < 78:
             return self.mk_prod(dim, depth)
         if x < 86:
@@ -200,7 +218,7 @@ class KGen:
             self.COORD = save
             toks = ["model", str(rdim), str(dim)] + [str(v) for row in A for v in row] + [str(v) for v in bvec] + t
             return toks, dict(exact=i["exact"], M=i["M"], f=i["f"], kinds=i["kinds"] | {"model"}, depth=i["depth"] + 1,
-                              ps=i["ps"] + ["int"] * (rdim * dim + rdim))
+                              ps=i["ps"] + ["int"] * (rdim * dim + rdim), psa=i["psa"] + ["int"] * (rdim * dim + rdim))
         if x < 92 and dim >= 2:
             # the real SubrangeKernel class (weighted sum of sub-range wrappers, weights via setParameterVector)
             n = r.choice([1, 2, 2, 3])
@@ -214,13 +232,13 @@ class KGen:
             ex = all(p == 0 for p in ps) and is_pow2(n) and all(i["exact"] for i in subs)
             return toks, dict(exact=ex, M=max(i["M"] for i in subs), f=max(i["f"] for i in subs) + n.bit_length(),
                               kinds=set().union(*[i["kinds"] for i in subs]) | {"subk", "sub"}, depth=1 + max(i["depth"] for i in subs),
-                              ps=["logw"] * (n - 1))
+                              ps=["logw"] * (n - 1), psa=["logw"] * (n - 1) + [q for i in subs for q in i["psa"]])
         if dim >= 2:
             a = r.below(dim - 1); b = r.range(a + 1, dim)
             if a == 0 and b == dim: a = 1 if dim > 1 and r.chance(1, 2) else 0
             if b <= a: b = a + 1
             t, i = self.gen(b - a, depth - 1)
-            return ["sub", str(a), str(b)] + t, dict(exact=i["exact"], M=i["M"], f=i["f"], kinds=i["kinds"] | {"sub"}, depth=i["depth"] + 1, ps=i["ps"])
+            return ["sub", str(a), str(b)] + t, dict(exact=i["exact"], M=i["M"], f=i["f"], kinds=i["kinds"] | {"sub"}, depth=i["depth"] + 1, ps=i["ps"], psa=i["psa"])
         return self.leaf(dim)
 
 
@@ -320,6 +338,49 @@ def gen_history_case(r, maxn):
     return ops, info
 
 
+def probe_fails(exe, env, cases):
+    import subprocess
+    e = dict(os.environ); e.setdefault("ASAN_OPTIONS", "detect_leaks=0"); e.update(env)
+    for c in cases:
+        p = subprocess.run([exe, "dense"], input="\n".join(c) + "\n", capture_output=True, text=True, errors="replace", env=e, timeout=120)
+        if p.returncode != 0 or "!oracle" in p.stdout:
+            return True
+    return False
+
+
+def gen_config_case(r, maxn, avoid_prod_adaptive=False):
+    """configurations the model does not cover, run on the real code alone and judged by the in-harness oracle:
+    weighted sums / SubrangeKernels whose sub-kernels are adaptive (setAdaptiveAll: the sub-kernels' parameters are part of
+    the parameter vector and of weightedParameterDerivative), unconstrained (log) encodings of the polynomial offset and the
+    Gaussian gamma, ARD with arbitrary gammas; with a setParameterVector in the middle"""
+    dim = r.choice([2, 2, 3, 3, 4]); n = r.range(3, maxn)
+    for _ in range(40):
+        kg = KGen(r); kg.unconstrained = True; kg.scaled_bias = 10
+        toks, info = kg.gen(dim, r.choice([1, 2, 2, 3]))
+        sums = [t for t in toks if t in ("wsum", "wsump", "subk")]
+        if sums or "polyu" in toks or "gaussu" in toks: break
+    pts = gen_points(r, n, dim, "norm" in info["kinds"])
+    reg = r.choice([Fraction(0), Fraction(1, 2)])
+    ops = ["kern " + " ".join(toks), f"pts {n} {dim} " + " ".join(str(v) for p in pts for v in p), "flags"]
+    adaptive = bool(sums) and r.chance(3, 4)
+    if avoid_prod_adaptive and "prod" in toks: adaptive = False
+    if adaptive: ops += ["adaptall", "flags"]
+    slots = info["psa"] if adaptive else info["ps"]
+
+    def derivs():
+        for _ in range(2):
+            a = r.below(n); b = r.range(a + 1, min(n, a + 3)); c = r.below(n); d = r.range(c + 1, min(n, c + 3))
+            ops.append(f"dcheck {a} {b} {c} {d} " + " ".join(str(r.range(-2, 2)) for _ in range((b - a) * (d - c))))
+        ops.append("gderiv " + " ".join(map(str, rand_partition(r, n))))
+    derivs()
+    ops.append(("setparams " + " ".join(dy(v) for v in new_params(r, slots, free_ard=True))).strip())
+    ops += observe_ops(r, n, reg)
+    derivs()
+    info = dict(info, n=n, dim=dim, parts=0, exact_case=False, oracle_only=True,
+                kinds=info["kinds"] | {"config"} | ({"adaptive"} if adaptive else set()))
+    return ops, info
+
+
 def gen_case(ctx, r, maxn, all_partitions=False):
     dim = r.choice([1, 2, 2, 3, 3, 4])
     n = r.range(2, maxn)
@@ -370,6 +431,7 @@ def gen_case(ctx, r, maxn, all_partitions=False):
     ops += hist
     if inexact: info = dict(info, exact=False)
     ops.append("unitvar " + " ".join(map(str, rand_partition(r, n))))
+    ops.append("gderiv " + " ".join(map(str, rand_partition(r, n))))
     # numerical derivative oracle on the real code (finite differences); last, because it resets parameters
     a = r.below(n); b = r.range(a + 1, min(n, a + 3)); c = r.below(n); d = r.range(c + 1, min(n, c + 3))
     ops.append(f"dcheck {a} {b} {c} {d} " + " ".join(str(r.range(-2, 2)) for _ in range((b - a) * (d - c))))
@@ -456,7 +518,7 @@ def gen_discrete_case(r, all_partitions=False):
 # ----------------------------------------------------------------------------- classification
 def kinds_of(ops):
     toks = ops[0].split() if ops else []
-    names = {"lin", "poly", "mono", "gauss", "ard", "norm", "scaled", "wsum", "wsump", "prod", "sub", "disc", "model", "subk"}
+    names = {"lin", "poly", "mono", "gauss", "ard", "norm", "scaled", "wsum", "wsump", "prod", "sub", "disc", "model", "subk", "polyu", "gaussu"}
     return sorted({t for t in toks[1:] if t in names})
 
 
@@ -496,6 +558,10 @@ def classify(ops, res):
     if "prod" in kinds and tag in ("product-parameter-count", "parameter-vector-size"):
         return "product-uninitialised-parameter-count", (f"ProductKernel::m_numberOfParameters is never initialised: "
                                                         f"numberOfParameters() is garbage ({res.oracle[0][-90:]}) for '{ops[0]}'")
+    if "prod" in kinds and crash and "adaptall" in ops and len(res.impl) == ops.index("adaptall"):
+        # the harness dies inside the adaptall op itself (its parameterVector() call) on a kernel containing a product
+        return "product-stale-parameter-count", (f"ProductKernel::m_numberOfParameters is stale after a factor's parameter count changed "
+                                                 f"(setAdaptiveAll): parameterVector() overflows ({crash}) on ops {ops}")
     if "prod" in kinds and "prod 0" in ops[0] and (crash or tag):
         return "empty-product-block", f"ProductKernel with no factors: block evaluation fails ({tag or crash}) on ops {ops}"
     if crash:
@@ -548,12 +614,16 @@ def run(ctx):
     if not exe or not drv:
         return
     r = ctx.rng.fork("c05")
+    # SHARK_PARALLEL_FOR in the Gram assembly stays parallel (2 threads), but without 16 spinning threads
+    env = {"OMP_NUM_THREADS": "2" if ctx.quick else "3", "OMP_WAIT_POLICY": "passive"}
     ncases, ndisc, maxn = (400, 40, 7) if ctx.quick else (2500, 200, 10)
     nderiv = 80 if ctx.quick else 500
     nhist = 150 if ctx.quick else 1000
+    nconf = 150 if ctx.quick else 1000
     cases = []       # (ops, info)
     for ops, mode in load_corpus():
-        cases.append((ops, dict(exact_case=(mode == "exact"), kinds=set(kinds_of(ops)), depth=-1, n=0, dim=0, parts=0, corpus=True)))
+        cases.append((ops, dict(exact_case=(mode == "exact"), kinds=set(kinds_of(ops)), depth=-1, n=0, dim=0, parts=0, corpus=True,
+                                oracle_only=(mode == "oracle-only"))))
     ctx.cov["corpus_cases"] = len(cases)
     for _ in range(ncases):
         cases.append(gen_case(ctx, r, maxn))
@@ -563,6 +633,13 @@ def run(ctx):
         cases.append(gen_deriv_case(r, maxn))
     for _ in range(nhist):
         cases.append(gen_history_case(r, maxn))
+    # open finding product-stale-parameter-count: while the defect is present, sub-kernels of sums below a ProductKernel are
+    # not made adaptive in the generated stream (every such case would die in ProductKernel::parameterVector); the corpus
+    # case keeps reporting it, and on a repaired tree the probe passes and those configurations are generated
+    stale = probe_fails(exe, env, [o for o, m in load_corpus() if o and "adaptall" in o and "prod" in o[0]])
+    ctx.cov["probe_product_stale_parameter_count"] = "defect present" if stale else "passes"
+    for _ in range(nconf):
+        cases.append(gen_config_case(r, maxn, avoid_prod_adaptive=stale))
     if not ctx.quick:
         # partition independence: ALL ordered batch partitions of n points (n <= 12)
         for n in (6, 8, 10, 12):
@@ -593,8 +670,6 @@ def run(ctx):
     ctx.cov["gram_ops"] = sum(1 for o, _ in cases for x in o if x.startswith("gram"))
     ctx.sample({"ops": cases[len(cases) // 2][0][:8]})
     ctx.sample({"ops": cases[len(cases) // 3][0][:8]})
-    # SHARK_PARALLEL_FOR in the Gram assembly stays parallel (2 threads), but without 16 spinning threads
-    env = {"OMP_NUM_THREADS": "2" if ctx.quick else "3", "OMP_WAIT_POLICY": "passive"}
     oonly = [o for o, i in cases if i.get("oracle_only")]
     cases = [(o, i) for o, i in cases if not i.get("oracle_only")]
     ctx.cov["cases_oracle_only"] = len(oonly)
